@@ -164,6 +164,28 @@ theorem digits_of_pair (hi lo : Byte) (h1 : IsUpperHex hi) (h2 : IsUpperHex lo) 
   rw [half_hi, half_lo]; exact enc_hex2byte hi lo h1 h2
 
 
+/-- the digit written for the high / low half of lane `k` is hex digit
+`2k+1` / `2k` of the number -/
+theorem digit_hi {w : Nat} (v : BitVec w) (k : Nat) :
+    half2hex (HIHALF (lane v k)) = upperDigit (v.toNat / 16 ^ (2 * k + 1) % 16) := by
+  rw [half_hi, encHi_spec, lane_toNat]
+  congr 1
+  have : 2 ^ (8 * k) = 16 ^ (2 * k) := by
+    rw [show 8 * k = 4 * (2 * k) by omega, Nat.pow_mul]
+  rw [this, Nat.pow_succ]
+  generalize 16 ^ (2 * k) = p
+  rw [← Nat.div_div_eq_div_mul]
+  omega
+
+theorem digit_lo {w : Nat} (v : BitVec w) (k : Nat) :
+    half2hex (LOHALF (lane v k)) = upperDigit (v.toNat / 16 ^ (2 * k) % 16) := by
+  rw [half_lo, encLo_spec, lane_toNat]
+  congr 1
+  have : 2 ^ (8 * k) = 16 ^ (2 * k) := by
+    rw [show 8 * k = 4 * (2 * k) by omega, Nat.pow_mul]
+  rw [this]
+  omega
+
 /-! ## base64: the encoder's table lookups are RFC letters of bit groups -/
 
 theorem charset_eq : charset = stdAlphabet.map ch ++ [padChar] := by decide +kernel
